@@ -90,6 +90,24 @@ Proof.
   - intros i k Hk. unfold lget in Hk. rewrite PM.gempty in Hk. apply PS.empty_spec in Hk. destruct Hk.
 Qed.
 
+Lemma iterate_postfix kill : forall fuel items ritems L L',
+  iterate kill fuel items ritems L = Some L' -> is_postfix kill items L' = true.
+Proof.
+  induction fuel as [|f IH]; intros items ritems L L' H; cbn in H; [discriminate|].
+  destruct (is_postfix kill items (sweep kill ritems L)) eqn:E.
+  - injection H as <-. exact E.
+  - eapply IH; eassumption.
+Qed.
+
+(* the computed table IS the least solution of the liveness equations *)
+Theorem liveness_exact kill fuel ops L : liveness kill fuel ops = Some L ->
+  forall i r, PS.In (rkey r) (lget L i) <-> live_gen kill ops i r.
+Proof.
+  intros H i r. split.
+  - intros Hin. rewrite <- (key_reg_rkey r). eapply liveness_sound; eassumption.
+  - apply postfix_sound. unfold liveness in H. eapply iterate_postfix; eassumption.
+Qed.
+
 Lemma find_some_spec {A B} (f : A -> option B) : forall l b, find_some f l = Some b ->
   exists a, In a l /\ f a = Some b.
 Proof.
